@@ -83,11 +83,32 @@ def scaled_time():
         E.threading, E.Queue = saved
 
 
+_MAXSIZE = []
+
+
 def _real_queue_maxsize():
-    from lemoncheesecake import events as E
-    em = E.AsyncEventManager.load()
-    with em.handle_events():
-        return int(getattr(em._queue, "maxsize", 0) or 0)
+    """the bound of the queue the REAL `handle_events` creates (0 = unbounded); read once per process"""
+    if not _MAXSIZE:
+        from lemoncheesecake import events as E
+        em = E.AsyncEventManager.load()
+        with em.handle_events():
+            _MAXSIZE.append(int(getattr(em._queue, "maxsize", 0) or 0))
+    return _MAXSIZE[0]
+
+
+# the largest extracted bound the stream still tries to overflow (events are cheap: ~10 µs each)
+MAX_OVERFLOWED_BOUND = 200000
+
+
+def resolved_n(case, maxsize):
+    """`over` = k: the case asks for MORE events after the first handler failure than the queue can hold, whatever
+    the extracted bound is: at least bound + k events are fired after the first failing one (nothing consumes them).
+    On an unbounded queue (bound 0) the case is its own `n`."""
+    n, fails = case["n"], sorted(case["fails"])
+    k = case.get("over")
+    if k and fails and 0 < maxsize <= MAX_OVERFLOWED_BOUND:
+        n = max(n, fails[0] + 1 + maxsize + k)
+    return n
 
 
 def em_table():
@@ -125,14 +146,20 @@ class EMStream(C.Stream):
     thorough_seconds = 120
     chunk = 20
     # a long tail of events after the failure (nobody consumes them any more), from several producers
+    hang_signature = "C11/event-manager-hang"
+    only_termination = False        # the C01 registration judges termination only (the rest is C11's statement)
     corpus = [{"n": 2600, "fails": [3], "producers": 2, "sched": []},
+              # more events after the failure than ANY finite bound the real queue has (resolved against the extracted bound)
+              {"n": 12, "fails": [3], "producers": 1, "sched": [], "over": 1},
+              {"n": 30, "fails": [0], "producers": 3, "sched": [1, 1, 1], "over": 7},
               {"n": 1200, "fails": [0, 700], "producers": 3, "sched": []},
               {"n": 40, "fails": [], "producers": 1, "sched": [1] * 40},
               # a handler blocked while the exit of handle_events is attempted; a later handler raises / nothing raises
               {"n": 6, "fails": [4], "producers": 1, "sched": [], "block": {"at": 1}},
               {"n": 3, "fails": [], "producers": 1, "sched": [], "block": {"at": 0}},
               {"n": 300, "fails": [299], "producers": 2, "sched": [1] * 10, "block": {"at": 10}}]
-    watchdog = 5.0
+    watchdog = 20.0         # whole case
+    stall = 1.5             # no event fired / handled for that long while a call is pending = blocked
     p_block = 0.35
 
     def gen(self, rng, i):
@@ -150,16 +177,18 @@ class EMStream(C.Stream):
             at = rng.randrange(fails[0]) if fails and fails[0] > 0 and rng.random() < 0.5 else rng.randrange(n)
             case["block"] = {"at": at}
             case["sched"] = [k if j < at else 0 for j, k in enumerate(sched)]     # model side: the handler thread does not get past `at`
+        if fails and not case.get("block") and rng.random() < 0.4:
+            case["over"] = rng.choice([1, 1, 2, 5, 50])      # overflow whatever bound the real queue has
         return case
 
     def impl(self, case):
         from lemoncheesecake import events as E
-        n, fails = case["n"], set(case["fails"])
         with scaled_time() as tlog:
             return self._impl(case, E, tlog)
 
     def _impl(self, case, E, tlog):
-        n, fails = case["n"], set(case["fails"])
+        fails = set(case["fails"])
+        n = resolved_n(case, _real_queue_maxsize())
         block_at = (case.get("block") or {}).get("at")
         closing, release = threading.Event(), threading.Event()
         em = E.AsyncEventManager.load()
@@ -174,7 +203,8 @@ class EMStream(C.Stream):
             if event.idx in fails:
                 raise RuntimeError(BOOM % event.idx)
         em.subscribe_to_event(E.TestSessionSetupStartEvent, handler)
-        state = {"fired": 0, "closed": False, "maxsize": None, "error": None, "blocked": False, "at_close": None}
+        state = {"fired": 0, "closed": False, "maxsize": None, "error": None, "blocked": False, "at_close": None,
+                 "in_fire": {}, "closing": False}
         turn = threading.Condition()
         nprod = case["producers"]
 
@@ -189,7 +219,9 @@ class EMStream(C.Stream):
                     i = state["fired"]
                 ev = E.TestSessionSetupStartEvent()
                 ev.idx = i
+                state["in_fire"][p] = i
                 em.fire(ev)                     # may block forever if the queue is bounded: the watchdog sees it
+                state["in_fire"].pop(p, None)
                 with turn:
                     state["fired"] = i + 1
                     turn.notify_all()
@@ -203,6 +235,7 @@ class EMStream(C.Stream):
                         t.start()
                     for t in ths:
                         t.join()
+                    state["closing"] = True
                     closing.set()
                 # what the caller of handle_events finds when it returns
                 exc0 = em.get_pending_failure()[0]
@@ -218,9 +251,20 @@ class EMStream(C.Stream):
         th = threading.Thread(target=body, daemon=True)
         t0 = time.time()
         th.start()
-        th.join(self.watchdog)
+        # the calls under observation run in helper threads: a blocked `fire` / exit is OBSERVED (no progress for
+        # `stall` seconds while the call is pending), never suffered
+        last, last_t = None, time.time()
+        while th.is_alive() and time.time() - t0 < self.watchdog:
+            th.join(0.05)
+            prog = (state["fired"], len(handled), state["closing"])
+            if prog != last:
+                last, last_t = prog, time.time()
+            elif time.time() - last_t > self.stall:
+                break
         hang = th.is_alive()
+        blocked_in = None
         if hang:
+            blocked_in = "fire" if state["in_fire"] else "close" if state["closing"] else "other"
             closing.set()
             release.set()
         for t in list(tlog["threads"]):         # a handler thread left behind by the exit gets the time to finish what it does
@@ -231,7 +275,8 @@ class EMStream(C.Stream):
             for i in sorted(fails):
                 if str(exc) == BOOM % i:
                     pending = i
-        return {"hang": hang, "fired": state["fired"], "closed": state["closed"], "error": state["error"],
+        return {"hang": hang, "blocked_in": blocked_in, "blocked_fire": sorted(state["in_fire"].values())[:1] if hang else [],
+                "n": n, "fired": state["fired"], "closed": state["closed"], "error": state["error"],
                 "handled": list(handled), "pending": pending, "pending_raw": None if exc is None else str(exc),
                 "text_ok": exc is None or (pending is not None and (BOOM % pending) in (text or "")),
                 "maxsize": state["maxsize"], "wall": round(time.time() - t0, 2),
@@ -241,11 +286,18 @@ class EMStream(C.Stream):
 
     def oracle(self, case, obs):
         out = []
-        n, fails = case["n"], sorted(case["fails"])
+        n, fails = obs.get("n", case["n"]), sorted(case["fails"])
         if obs["hang"] or not obs["closed"]:
-            out.append(C.Failure("C11/event-manager-hang",
-                                 "%d of %d events fired, handle_events exited: %s, after %.1f s (first failing event: %s)"
-                                 % (obs["fired"], n, obs["closed"], obs["wall"], fails[:1])))
+            out.append(C.Failure(self.hang_signature % {"where": obs.get("blocked_in") or "exit"} if "%" in self.hang_signature
+                                 else self.hang_signature,
+                                 "%d of %d events fired, blocked in: %s%s, handle_events exited: %s, after %.1f s (first failing "
+                                 "event: %s, queue bound: %s)"
+                                 % (obs["fired"], n, obs.get("blocked_in"), " of event %s" % obs["blocked_fire"][0] if obs.get("blocked_fire") else "",
+                                    obs["closed"], obs["wall"], fails[:1], obs["maxsize"])))
+            return out
+        if self.only_termination:
+            if obs["error"]:
+                out.append(C.Failure(self.hang_signature.split("/")[0] + "/event-manager-raised", obs["error"]))
             return out
         if obs["error"]:
             out.append(C.Failure("C11/event-manager-raised", obs["error"]))
@@ -281,7 +333,7 @@ class EMStream(C.Stream):
         return out
 
     def request(self, case, obs):
-        return {"cap": obs["maxsize"] or 0, "n": case["n"], "fails": case["fails"], "sched": case["sched"], "join_limit": None}
+        return {"cap": obs["maxsize"] or 0, "n": obs.get("n", case["n"]), "fails": case["fails"], "sched": case["sched"], "join_limit": None}
 
     def compare(self, case, obs, ans):
         if "error" in ans:
@@ -316,8 +368,11 @@ class EMStream(C.Stream):
         n, fails = case["n"], case["fails"]
         f = ["n=%s" % ("0-5" if n <= 5 else "6-120" if n <= 120 else "121-1000" if n <= 1000 else ">1000"),
              "producers=%d" % case["producers"], "failing=%d" % len(fails)]
+        f.append("queue-bound=%s" % ("unbounded" if not obs.get("maxsize") else "finite"))
+        if case.get("over"):
+            f.append("asks-for-more-than-the-bound")
         if fails:
-            after = n - 1 - fails[0]
+            after = obs.get("n", n) - 1 - fails[0]
             f.append("events-after-failure=%s" % ("0" if after == 0 else "1-100" if after <= 100 else "101-1000" if after <= 1000 else ">1000"))
         if case.get("block"):
             f.append("handler-blocked-at-exit" if obs.get("blocked") else "block-not-reached")
@@ -340,5 +395,7 @@ class EMStream(C.Stream):
                 yield dict(case, block={"at": b // 2}, sched=[k if j < b // 2 else 0 for j, k in enumerate(case["sched"])])
         if case["producers"] > 1:
             yield dict(case, producers=1)
+        if case.get("over", 0) > 1:
+            yield dict(case, over=1)
         for i in range(len(case["fails"])):
             yield dict(case, fails=case["fails"][:i] + case["fails"][i + 1:])
